@@ -378,6 +378,9 @@ pub struct StubLog {
     /// element operations (arithmetic / comparison on `Yf`) at which this operation was suspended
     #[serde(default)]
     pub elem_yields: u32,
+    /// bit i set = query element i (first 64) was handed to the strategy at least once
+    #[serde(default)]
+    pub received: u64,
 }
 
 #[derive(Serialize, Deserialize, Clone, Debug, PartialEq)]
